@@ -143,6 +143,117 @@ func (n *mjNode) wire(sb *strings.Builder) {
 	}
 }
 
+// js prints the node as JavaScript source (fully parenthesised); ok = false when the node has no source form
+// (a typeof flag that the parser would set differently)
+func (n *mjNode) js(mask int) (string, bool) {
+	kid := func(i int) (string, bool) { return n.kids[i].js(mask) }
+	switch n.kind {
+	case mjUndef:
+		return "(void 0)", true
+	case mjNull:
+		return "null", true
+	case mjBool:
+		if n.b {
+			return "true", true
+		}
+		return "false", true
+	case mjNum:
+		switch {
+		case n.num != n.num:
+			return "NaN", true
+		case math.IsInf(n.num, 1):
+			return "Infinity", true
+		case math.IsInf(n.num, -1):
+			return "(-Infinity)", true
+		case n.num == 0 && math.Signbit(n.num):
+			return "(-0)", true
+		case n.num < 0:
+			return "(" + strconv.FormatFloat(n.num, 'g', -1, 64) + ")", true
+		}
+		return strconv.FormatFloat(n.num, 'g', -1, 64), true
+	case mjStr:
+		var sb strings.Builder
+		sb.WriteByte('"')
+		for _, c := range n.str {
+			if c >= 0x20 && c < 0x7f && c != '"' && c != '\\' {
+				sb.WriteByte(byte(c))
+			} else {
+				fmt.Fprintf(&sb, "\\u%04x", c)
+			}
+		}
+		sb.WriteByte('"')
+		return sb.String(), true
+	case mjIdent:
+		if (mask>>n.id)&1 == 1 {
+			return "u" + strconv.Itoa(n.id), true
+		}
+		return "v" + strconv.Itoa(n.id), true
+	case mjUnary:
+		a, ok := kid(0)
+		if !ok || (n.op == "typeof0") == (n.kids[0].kind == mjIdent) && strings.HasPrefix(n.op, "typeof") {
+			return "", false
+		}
+		tok := map[string]string{"not": "!", "neg": "-", "pos": "+", "cpl": "~", "void": "void ", "typeof0": "typeof ", "typeof1": "typeof "}[n.op]
+		return "(" + tok + a + ")", true
+	case mjBinary:
+		a, ok1 := kid(0)
+		b, ok2 := kid(1)
+		tok := map[string]string{"and": "&&", "or": "||", "nullish": "??", "comma": ",", "seq": "===", "sne": "!==", "leq": "==", "lne": "!=", "add": "+", "sub": "-", "ushr": ">>>", "lt": "<", "gt": ">", "le": "<=", "ge": ">="}[n.op]
+		if n.op == "nullish" {
+			// `a ?? b` cannot be mixed with && and || without parentheses: both operands are parenthesised already
+		}
+		return "(" + a + " " + tok + " " + b + ")", ok1 && ok2 && tok != ""
+	case mjIf:
+		c, ok1 := kid(0)
+		y, ok2 := kid(1)
+		z, ok3 := kid(2)
+		return "(" + c + " ? " + y + " : " + z + ")", ok1 && ok2 && ok3
+	case mjCall:
+		t, ok := kid(0)
+		args := []string{}
+		for i := range n.kids[1:] {
+			a, ok2 := kid(i + 1)
+			ok = ok && ok2
+			args = append(args, a)
+		}
+		return "(" + t + "(" + strings.Join(args, ", ") + "))", ok
+	case mjDot:
+		t, ok := kid(0)
+		return "(" + t + "." + string(utf16ToBytes(n.str)) + ")", ok
+	case mjIndex:
+		t, ok1 := kid(0)
+		i, ok2 := kid(1)
+		return "(" + t + "[" + i + "])", ok1 && ok2
+	}
+	return "", false
+}
+
+// mjWitnessProgram: `if (<x>)` evaluated for 17*17 assignments of the six identifiers (bound ones are
+// parameters, unbound ones globals); the program reports one character per assignment
+func mjWitnessProgram(x *mjNode, mask int) (string, bool) {
+	src, ok := x.js(mask)
+	if !ok {
+		return "", false
+	}
+	params, sets := []string{}, []string{}
+	idx := []string{"i", "j", "(i + j) % n", "(i * 3 + j) % n", "(i + 2 * j + 1) % n", "(2 * i + j + 2) % n"}
+	for k := 0; k < 6; k++ {
+		if (mask>>k)&1 == 1 {
+			sets = append(sets, fmt.Sprintf("globalThis.u%d = vals[%s];", k, idx[k]))
+			params = append(params, fmt.Sprintf("w%d", k))
+		} else {
+			params = append(params, fmt.Sprintf("v%d", k))
+		}
+	}
+	return "var vals = [\"0\", \" \", [], [0], 0, NaN, \"x\", 1, null, void 0, {valueOf() { return 0 }}, \"\", -0, true, false, 2, function () { return 0 }];\n" +
+		"var n = vals.length;\n" +
+		"function t(" + strings.Join(params, ", ") + ") { if (" + src + ") return \"1\"; else return \"0\"; }\n" +
+		"var out = \"\";\n" +
+		"for (var i = 0; i < n; i++) for (var j = 0; j < n; j++) {\n" + strings.Join(sets, " ") + "\n" +
+		"try { out += t(vals[i], vals[j], vals[(i + j) % n], vals[(i * 3 + j) % n], vals[(i + 2 * j + 1) % n], vals[(2 * i + j + 2) % n]); } catch (e) { out += \"E\"; }\n}\n" +
+		"p(1, out);\n", true
+}
+
 func (n *mjNode) String() string {
 	var sb strings.Builder
 	n.wire(&sb)
@@ -484,6 +595,22 @@ func (g *mjGen) expr1(depth int) *mjNode {
 			l = g.bin([]string{"and", "or"}[r.Intn(2)], l, g.bin("ushr", g.expr(depth-1), g.expr(depth-1)))
 		} else if r.Chance(1, 4) {
 			l = &mjNode{kind: mjIf, kids: []*mjNode{g.expr(depth - 1), l, g.bin("ushr", g.ident(), g.lit())}}
+		} else if r.Chance(1, 2) {
+			// near misses: only ONE operand of the logical operator / one branch is an integer (no rewrite allowed:
+			// the other one may be a truthy value that is loosely equal to 0, or NaN)
+			other := g.expr(depth - 1)
+			switch r.Intn(5) {
+			case 0:
+				l = g.bin("or", other, l)
+			case 1:
+				l = g.bin("and", other, l)
+			case 2:
+				l = g.bin([]string{"and", "or", "nullish", "comma"}[r.Intn(4)], l, other)
+			case 3:
+				l = &mjNode{kind: mjIf, kids: []*mjNode{g.expr(depth - 1), l, other}}
+			default:
+				l = &mjNode{kind: mjIf, kids: []*mjNode{g.expr(depth - 1), other, l}}
+			}
 		}
 		z := &mjNode{kind: mjNum, num: []float64{0, 0, math.Copysign(0, -1), 1}[r.Intn(4)]}
 		return g.bin(mjEqNames[r.Intn(4)], l, z)
@@ -845,7 +972,13 @@ func init() {
 				} else {
 					e.stat("sbe:changed")
 				}
-				e.emit(fmt.Sprintf("minijs\tsbe\t%d\t%s", m, in), out)
+				if src, ok := mjWitnessProgram(x, m); ok {
+					// end-to-end witness: the expression as the test of an `if`, run over a menu of operand values
+					// (truthy values that are loosely equal to 0, NaN, -0, objects with valueOf, …)
+					e.emitW(fmt.Sprintf("minijs\tsbe\t%d\t%s", m, in), out, "c03-prog", map[string]string{"source": src, "opt_name": "ms"})
+				} else {
+					e.emit(fmt.Sprintf("minijs\tsbe\t%d\t%s", m, in), out)
+				}
 			case 7: // ToBooleanWithSideEffects
 				x := g.expr(depth)
 				e.emit("minijs\ttobool\t"+x.String(), guard(func() string {
